@@ -1697,6 +1697,75 @@ Lemma header_shape_pair guid key kb req out :
   [auth_value guid (hex_encode (mac kb (request_sig_input out)))].
 Proof. unfold sign_and_forward_pair. apply header_shape. Qed.
 
+(* ---- what is signed is what the host receives: framing of an empty body ---- *)
+Lemma filter_comm {A} (f g : A -> bool) l : filter f (filter g l) = filter g (filter f l).
+Proof.
+  induction l as [|x l IH]; [reflexivity|]. cbn [filter].
+  destruct (g x) eqn:G, (f x) eqn:F; cbn [filter]; rewrite ?G, ?F, IH; reflexivity.
+Qed.
+
+Lemma filter_idem {A} (f : A -> bool) l : filter f (filter f l) = filter f l.
+Proof.
+  induction l as [|x l IH]; [reflexivity|]. cbn [filter].
+  destruct (f x) eqn:F; cbn [filter]; rewrite ?F, IH; reflexivity.
+Qed.
+
+Lemma drop_header_insert n a v hs :
+  beq n a = false -> drop_header n (hm_insert a v hs) = hm_insert a v (drop_header n hs).
+Proof.
+  intros Hna. unfold drop_header. induction hs as [|[k w] t IH].
+  - cbn [hm_insert filter fst]. rewrite Hna. reflexivity.
+  - cbn [hm_insert fst]. destruct (beq a k) eqn:E.
+    + apply beq_eq in E. subst k. cbn [filter fst]. rewrite Hna. cbn [negb hm_insert fst].
+      rewrite beq_refl. f_equal. apply filter_comm.
+    + cbn [filter fst]. destruct (beq n k) eqn:E2; cbn [negb]; [exact IH|].
+      cbn [hm_insert fst]. rewrite E. f_equal. exact IH.
+Qed.
+
+Lemma hyper_wire_idem r : hyper_wire (hyper_wire r) = hyper_wire r.
+Proof.
+  unfold hyper_wire. destruct (r_body r) eqn:E; [|rewrite E; reflexivity].
+  cbn [with_headers r_body r_headers]. rewrite E. unfold with_headers, drop_header. cbn [r_method r_uri r_headers r_body].
+  rewrite filter_idem. reflexivity.
+Qed.
+
+Lemma te_not_auth : beq transfer_encoding_header auth_header = false.
+Proof. vm_compute. reflexivity. Qed.
+
+Lemma hyper_wire_insert_auth av r :
+  hyper_wire r = r ->
+  hyper_wire (with_headers r (hm_insert auth_header av (r_headers r))) = with_headers r (hm_insert auth_header av (r_headers r)).
+Proof.
+  intros Hfix. unfold hyper_wire in *. cbn [with_headers r_body r_headers] in *.
+  destruct (r_body r) eqn:E; [|reflexivity].
+  apply (f_equal r_headers) in Hfix. cbn [with_headers r_headers] in Hfix.
+  unfold with_headers. cbn [r_method r_uri r_headers r_body]. rewrite E.
+  rewrite drop_header_insert by apply te_not_auth. rewrite Hfix. reflexivity.
+Qed.
+
+Lemma handle_signed_is_received key req out :
+  handle_signed mac key req = Forwarded out ->
+  hyper_wire out = out /\ request_sig_input out = request_sig_input (hyper_wire req).
+Proof.
+  unfold handle_signed. intros H. split; [|apply (signed_is_sent_pair key (hyper_wire req) out H)].
+  pose proof (hyper_wire_idem req) as Hfix. set (r := hyper_wire req) in *. clearbody r.
+  unfold sign_and_forward_pair in H. destruct key as [[guid value]|]; [|injection H as <-; exact Hfix].
+  unfold sign_and_forward in H.
+  destruct (compute_signature mac value (request_sig_input r)) as [sig|]; [|injection H as <-; exact Hfix].
+  destruct (header_value_ok (auth_value guid sig)); [|discriminate].
+  injection H as <-. apply hyper_wire_insert_auth. exact Hfix.
+Qed.
+
+Lemma handle_signed_shape guid key kb req out :
+  handle_signed mac (Some (guid, key)) req = Forwarded out ->
+  hex_decode key = Some kb ->
+  hm_get_all auth_header (r_headers (hyper_wire out)) =
+  [auth_value guid (hex_encode (mac kb (request_sig_input (hyper_wire out))))].
+Proof.
+  intros H Hk. destruct (handle_signed_is_received _ _ _ H) as [-> _].
+  unfold handle_signed in H. eapply header_shape_pair; eassumption.
+Qed.
+
 Lemma relay_exempt kv kg req :
   should_skip_sig (r_method req) (r_uri req) = true -> relay mac kv kg req = Forwarded req.
 Proof. unfold relay. intros ->. reflexivity. Qed.
